@@ -573,8 +573,8 @@ class ContractMixin:
                 self.emit(st, "call_pre", "call[%s].requires_direct[%d]" % (info.qualname, i), r, goal)
         suspends = c.suspends is not None and (c.suspends[1] is None or c.suspends[1] > 0)
         if not c.pure and not c.no_invariants:
-            # a callee that may suspend makes this call a yield point: everything must hold, not just its scope
-            self.assert_invariants(st, where="call " + info.qualname, scope=None if suspends else c.inv_scope)
+            # a callee that may suspend (or runs foreign code) makes this call a yield point: everything must hold
+            self.assert_invariants(st, where="call " + info.qualname, scope=None if (suspends or c.havoc_all) else c.inv_scope)
         if suspends:
             self.at_suspension_for_call(st, info)
         pre = st.snap()
@@ -601,7 +601,19 @@ class ContractMixin:
             s = st.copy() if vi < len(variants) - 1 else st
             s.note("%s:%s" % (info.qualname, kind if en is None else "raise " + en))
             # --- frame
-            if kind in ("signal", "close") or (kind in ("normal",) and suspends) or (kind == "raise" and suspends and spec.get("suspended", True)):
+            if c.havoc_all:
+                t0 = self.loop_field(s, "time")
+                a0 = self.loop_field(s, "activity")
+                self.havoc_heap(s, full=True, reason="sync interference " + info.qualname, pre=pre)
+                s.assume(self.loop_field(s, "time") == t0)
+                s.assume(self.loop_field(s, "activity") == a0)
+                s.last_susp_sync = True
+                s.inv_base = s.snap()
+                s.inv_over = {}
+                s.inv_hist = ()
+                s.touched = frozenset()
+                self.assume_invariants_eagerly(s)
+            elif kind in ("signal", "close") or (kind in ("normal",) and suspends) or (kind == "raise" and suspends and spec.get("suspended", True)):
                 self.havoc_heap(s, full=True, reason="call " + info.qualname, pre=pre)
                 s.assume(self.loop_field(s, "time") >= old_time)
                 n = fresh("csusp", z3.IntSort())
